@@ -91,6 +91,11 @@ type Stream struct {
 	// dropped, and the stream is recycled when it reports back.
 	abandoned bool
 
+	// rejected holds the stream error a malformed header field earned the
+	// request. It is raised when the header block is complete, not where the
+	// field was found: the rest of the block has to be decoded either way.
+	rejected error
+
 	// blockFields counts the fields decoded so far from the header block that
 	// is currently arriving, across the HEADERS frame and its CONTINUATIONs.
 	blockFields int
@@ -147,6 +152,7 @@ func NewStream(id uint32, win int32) *Stream {
 	strm.origType = 0
 	strm.headerListSize = 0
 	strm.blockFields = 0
+	strm.rejected = nil
 
 	return strm
 }
